@@ -35,6 +35,7 @@ func main() {
 	selftest := flag.Bool("selftest", false, "run the sensitivity suite for -property (or all) and exit non-zero on a failed expectation")
 	list := flag.Bool("list", false, "list properties and rules")
 	dump := flag.String("dump", "", "debug: dump roles|callgraph")
+	verbose := flag.Bool("v", false, "print every obligation")
 	flag.Parse()
 
 	if *tier == "" {
@@ -109,6 +110,11 @@ func main() {
 		if *jsonOut {
 			b, _ := json.Marshal(c.Obls)
 			fmt.Println(string(b))
+		}
+		if *verbose {
+			for _, o := range c.Obls {
+				fmt.Printf("  [%s] %s | %s | %s | %s | %s\n", o.Verdict, o.Rule, o.Func, o.Construct, o.Pos, o.Detail)
+			}
 		}
 		res := finish(c, *tier, seed, start, extra, !*noEvidence)
 		if !*jsonOut {
